@@ -116,11 +116,11 @@ func (p *VipnodePool) NumRemotes() int {
 	return len(p.remoteHosts)
 }
 
-// canonicalNodeID returns the one spelling under which a node is known to the
+// CanonicalNodeID returns the one spelling under which a node is known to the
 // pool. The signature check reads a node ID as a hex number: upper-case
 // digits and a 0x prefix name the same key, but it is one node with one nonce
 // sequence, one record and one balance.
-func canonicalNodeID(nodeID string) string {
+func CanonicalNodeID(nodeID string) string {
 	id := nodeID
 	if strings.HasPrefix(id, "0x") || strings.HasPrefix(id, "0X") {
 		id = id[2:]
@@ -130,6 +130,8 @@ func canonicalNodeID(nodeID string) string {
 	}
 	return strings.ToLower(id)
 }
+
+func canonicalNodeID(nodeID string) string { return CanonicalNodeID(nodeID) }
 
 func (p *VipnodePool) verify(sig string, method string, nodeID string, nonce int64, args ...interface{}) error {
 	// TODO: Switch nonce to strictly timestamp within X time
